@@ -1,4 +1,5 @@
 import StoneVerif.Lemmas.FeCompileRouteAttrs
+import StoneVerif.Model.FeAttrVal
 import StoneVerif.Props.C02Compile
 /-!
 # C01 for the compile model: accepted = legal
@@ -17,7 +18,7 @@ open StoneVerif.FeCompile
 rule: each check of each pass -- made in the order the passes run, against the aliases set and the types populated at
 that moment -- is, taken together with the others, the order-free rule; and the rules leave nothing for a check to
 trip over.  `vc` is the test of one route-attribute value against the type of its attribute: the statement holds for
-every such test (`Props/C01Compile.lean` `compile_ok_iff_legal_values` instantiates it with C10's value checker). -/
+every such test (`compile_ok_iff_legal_values` below instantiates it with C10's value checker). -/
 theorem compile_ok_iff_legal (rx : String → Bool) (vc : ValCk) (fs : List File) (hl : nsLexical fs = true) :
     (∃ api, compileFull rx vc fs = .ok api) ↔ LegalFull rx vc fs = true :=
   L.compileFull_ok_iff_legalFull rx vc fs hl
@@ -60,6 +61,18 @@ theorem acceptance_by_rules (rx : String → Bool) (vc : ValCk) (fs fs' : List F
     (hl' : nsLexical fs' = true) (h : LegalFull rx vc fs = LegalFull rx vc fs') :
     (∃ api, compileFull rx vc fs = .ok api) ↔ (∃ api, compileFull rx vc fs' = .ok api) := by
   rw [compile_ok_iff_legal rx vc fs hl, compile_ok_iff_legal rx vc fs' hl', h]
+
+/-- **Accepted = legal, values included.** With the value test `attrVal E C` (Model/FeAttrVal.lean: `<Type>.check` as
+C10 models it, `IrCheck.check`, reached through aliases and `Nullable` the way `check_attr_repr` does) the value of a
+route attribute is legal when it is a literal of the kind of the attribute's type inside all its bounds (integers in
+the width and between `min_value` / `max_value`, no booleans for numbers, integers for floats only when the double is
+exact, strings within the lengths and matching the whole pattern, timestamps that `strptime` reads with the format,
+for a union the name of one of its tags without a value).  `E`, `C` are IrCheck's external calls -- float comparison,
+`float(int)`, the `re` match, `strptime` -- the same on both sides: parameters, not hypotheses. -/
+theorem compile_ok_iff_legal_values (rx : String → Bool) (E : StoneVerif.Rt.Ext) (C : StoneVerif.IrCheck.CExt)
+    (fs : List File) (hl : nsLexical fs = true) :
+    (∃ api, compileFull rx (attrVal E C) fs = .ok api) ↔ LegalFull rx (attrVal E C) fs = true :=
+  compile_ok_iff_legal rx (attrVal E C) fs hl
 
 /-- the same without the route-attribute stage: types, patches and applied annotations -/
 theorem compile_ok_iff_legal_types (rx : String → Bool) (fs : List File) (hl : nsLexical fs = true) :
@@ -218,6 +231,45 @@ example : errOf (compileFull rx1 vcT
     (compileFull rx1 vcT
       (cfg [{ name := "l", ty := some (.app1 (href "List" true) (ref "String")) }] :: one [rt [("l", .null)]])).toOption.isSome
       = true := by decide +kernel
+
+/-! values of route attributes, by C10's checker (the examples need none of its external calls except the pattern) -/
+def extT : StoneVerif.Rt.Ext :=
+  { fltLt := fun _ _ => false, fltIsNan := fun _ => false, fltIsInf := fun _ => false, fltOfInt := fun _ => none,
+    patMatch := fun p s => p == s, b64enc := id, b64dec := fun _ => none, strftime := fun f _ => f,
+    strptime := fun _ _ => none, md5 := id, reSearch := fun _ _ => none, strOfInt := fun _ => "", strOfFlt := fun _ => "" }
+def cextT : StoneVerif.IrCheck.CExt := { intExact := fun _ => true, strptimeOk := fun f s => f == s }
+def vcV : ValCk := attrVal extT cextT
+def kwRef (n : String) (kw : List (String × StoneVerif.FeParams.Arg)) : TRef :=
+  .leaf { ns := none, name := n, kw := kw, nullable := false } []
+def modeCfg : List File :=
+  [cfg [{ name := "mode", ty := some (ref "Mode") }, { name := "n", ty := some (kwRef "Int32" [("max_value", .int 9)]), hasDefault := true },
+        { name := "s", ty := some (kwRef "String" [("max_length", .int 2)]), hasDefault := true }]
+       [.type { name := "Mode", kind := .union false, fields := [{ name := "fast", ty := none }, { name := "big", ty := some (ref "String") }] }]]
+
+-- `stone_cfg` may define only `Route`: the union lives elsewhere in real specs; here the rule itself is shown
+example : errOf (compileFull rx1 vcV (modeCfg ++ one [rt [("mode", .tag "fast")]])) = some .cfgNotRoute := by decide +kernel
+
+def modeRoute : TypeDecl :=
+  { name := "Route", kind := .struct,
+    fields := [{ name := "mode", ty := some (.leaf { ns := some "nb", name := "Mode", kw := [], nullable := false } []) },
+               { name := "n", ty := some (kwRef "Int32" [("max_value", .int 9)]), hasDefault := true },
+               { name := "s", ty := some (kwRef "String" [("max_length", .int 2)]), hasDefault := true }] }
+def modeUnion : TypeDecl :=
+  { name := "Mode", kind := .union false, fields := [{ name := "fast", ty := none }, { name := "big", ty := some (ref "String") }] }
+def modeFiles : List File :=
+  [{ ns := "stone_cfg", decls := [.imp "nb", .type modeRoute] }, { ns := "nb", decls := [.type modeUnion] }]
+
+example : LegalFull rx1 vcV (modeFiles ++ one [rt [("mode", .tag "fast"), ("n", .int 9), ("s", .str "ab")]]) = true ∧
+    LegalFull rx1 vcV (modeFiles ++ one [rt [("mode", .tag "other")]]) = true := by decide +kernel
+
+example : errOf (compileFull rx1 vcV (modeFiles ++ one [rt [("mode", .tag "slow")]])) = some .attrValue ∧      -- unknown tag
+    errOf (compileFull rx1 vcV (modeFiles ++ one [rt [("mode", .tag "big")]])) = some .attrValue ∧             -- a tag with a value
+    errOf (compileFull rx1 vcV (modeFiles ++ one [rt [("mode", .str "fast")]])) = some .attrValue ∧            -- not a tag
+    errOf (compileFull rx1 vcV (modeFiles ++ one [rt [("mode", .tag "fast"), ("n", .int 10)]])) = some .attrValue ∧
+    errOf (compileFull rx1 vcV (modeFiles ++ one [rt [("mode", .tag "fast"), ("n", .bool true)]])) = some .attrValue ∧
+    errOf (compileFull rx1 vcV (modeFiles ++ one [rt [("mode", .tag "fast"), ("n", .null)]])) = some .attrValue ∧
+    errOf (compileFull rx1 vcV (modeFiles ++ one [rt [("mode", .tag "fast"), ("s", .str "abc")]])) = some .attrValue ∧
+    LegalFull rx1 vcV (modeFiles ++ one [rt [("mode", .tag "fast"), ("s", .str "abc")]]) = false := by decide +kernel
 
 end Examples
 
